@@ -503,6 +503,56 @@ fn placements() -> Vec<Case> {
 /// every further import - under an alias, inside a function, inside a fiber, inside try, through another
 /// module - the module's own functions and the importer still see the module's definitions, and the
 /// importer's own built-ins are the built-ins.
+/// A module whose own top-level code raises and handles exceptions while it is being imported is loaded
+/// like any other: once.  Eight module bodies (a throw handled at top level, through a finally block, from a
+/// function, a failed built-in, a failed import of another module, in a loop, inside a fiber, and a handled
+/// exception that crossed from a second module) each define a counter after the handling; the main program
+/// imports the module, bumps the counter, imports it again in one of five ways and bumps again: one load, one
+/// module object, one counter.
+fn modules_that_handle_their_own_exceptions() -> Vec<Case> {
+    let mut out = Vec::new();
+    let handled = |body: Vec<Stmt>| -> Stmt { st(StmtKind::Try(body, Some(("e".into(), vec![print_stmt(s("handled in m"))])), None)) };
+    let bodies: Vec<(&str, Vec<Stmt>)> = vec![
+        ("throw", vec![handled(vec![st(StmtKind::Throw(s("x")))])]),
+        ("through_finally", vec![handled(vec![st(StmtKind::Try(vec![st(StmtKind::Throw(num(1.0)))], None, Some(vec![print_stmt(s("finally in m"))])))])]),
+        ("from_function", vec![fn_stmt(func("f", &[], vec![st(StmtKind::Throw(s("deep")))])), handled(vec![expr_stmt(call(var("f"), vec![]))])]),
+        ("built_in", vec![handled(vec![expr_stmt(index(Expr::VecLit(vec![]), num(1.0)))])]),
+        ("failed_import", vec![handled(vec![st(StmtKind::Import("zz_not_there".into(), None))])]),
+        ("in_a_loop", vec![st(StmtKind::For("i".into(), bin(BinOp::Range, num(0.0), num(3.0)), vec![handled(vec![st(StmtKind::If(bin(BinOp::Eq, var("i"), num(1.0)), vec![st(StmtKind::Throw(var("i")))], None))])]))]),
+        ("in_a_fiber", vec![expr_stmt(invoke(invoke(var("Fiber"), "new", vec![lambda_block(&[], vec![handled(vec![st(StmtKind::Throw(num(1.0)))])])]), "call", vec![]))]),
+        ("from_another_module", vec![st(StmtKind::Import("thrower".into(), None)), handled(vec![expr_stmt(invoke(var("thrower"), "fail", vec![]))])]),
+    ];
+    let reimports: Vec<(&str, Vec<Stmt>)> = vec![
+        ("alias", vec![st(StmtKind::Import("m".into(), Some("again".into()))), print_stmt(bin(BinOp::Eq, var("again"), var("m")))]),
+        ("same_name", vec![st(StmtKind::Import("m".into(), None))]),
+        ("in_function", vec![fn_stmt(func("later", &[], vec![st(StmtKind::Import("m".into(), None)), st(StmtKind::Return(Some(var("m"))))])), print_stmt(bin(BinOp::Eq, call(var("later"), vec![]), var("m")))]),
+        ("through_another_module", vec![st(StmtKind::Import("via".into(), None)), print_stmt(invoke(var("via"), "ask", vec![]))]),
+        ("after_a_handled_failure_in_main", vec![st(StmtKind::Try(vec![st(StmtKind::Throw(s("main's own")))], Some(("e".into(), vec![print_stmt(s("handled in main"))])), None)), st(StmtKind::Import("m".into(), None))]),
+    ];
+    for (_bname, body) in &bodies {
+        for (_rname, re) in &reimports {
+            let mut module: Vec<Stmt> = vec![print_stmt(s("load m"))];
+            module.extend(body.clone());
+            module.push(var_stmt("count", num(0.0)));
+            module.push(fn_stmt(func("bump", &[], vec![expr_stmt(assign("count", bin(BinOp::Add, var("count"), num(1.0)))), st(StmtKind::Return(Some(var("count"))))])));
+            module.push(print_stmt(s("loaded m")));
+            let mut main = vec![st(StmtKind::Import("m".into(), None)), print_stmt(invoke(var("m"), "bump", vec![]))];
+            main.extend(re.clone());
+            main.push(print_stmt(invoke(var("m"), "bump", vec![])));
+            main.push(st(StmtKind::Import("m".into(), Some("last".into()))));
+            main.push(print_stmt(bin(BinOp::Eq, var("last"), var("m"))));
+            main.push(print_stmt(invoke(var("last"), "bump", vec![])));
+            let mut c = Case::new("modules_that_handle_their_own_exceptions", main);
+            c.modules.insert("m".to_string(), ModuleSource { program: Some(module), compile_error: false });
+            c.modules.insert("via".to_string(), ModuleSource { program: Some(vec![st(StmtKind::Import("m".into(), None)), fn_stmt(func("ask", &[], vec![st(StmtKind::Return(Some(invoke(var("m"), "bump", vec![]))))]))]), compile_error: false });
+            c.modules.insert("thrower".to_string(), ModuleSource { program: Some(vec![fn_stmt(func("fail", &[], vec![st(StmtKind::Throw(s("from thrower")))]))]), compile_error: false });
+            c.opts = CmpOpts { trace: false, kind: false };
+            out.push(c);
+        }
+    }
+    out
+}
+
 fn reimport_changes_nothing() -> Vec<Case> {
     let mut out = Vec::new();
     let shadow_body = || -> Vec<Stmt> {
@@ -800,7 +850,7 @@ fn crossings() -> Vec<Case> {
 
 pub fn cases_for_c01(thorough: bool) -> Vec<Case> {
     let graphs = (0..(1usize << 12)).filter(|b| (b >> 9) != 0 && (thorough || b % 16 == 5)).map(graph_case);
-    placements().into_iter().chain(reimport_changes_nothing()).chain(crossings()).chain(fibers_from_other_modules()).chain(graphs).collect()
+    placements().into_iter().chain(reimport_changes_nothing()).chain(modules_that_handle_their_own_exceptions()).chain(crossings()).chain(fibers_from_other_modules()).chain(graphs).collect()
 }
 
 pub fn run(ctx: &Ctx) -> Report {
@@ -812,7 +862,7 @@ pub fn run(ctx: &Ctx) -> Report {
     let graphs = (0..total).map(graph_case);
     // the deferred form needs main to import something: 3584 graphs
     let lazy = (0..total).filter(move |b| (b >> 9) != 0).map(lazy_graph_case);
-    let cases = placements().into_iter().chain(imports_that_do_not_complete()).chain(odd_spellings()).chain(lazy.collect::<Vec<_>>()).into_iter().chain(reimport_changes_nothing()).chain(crossings()).chain(fibers_from_other_modules()).chain(graphs);
+    let cases = placements().into_iter().chain(imports_that_do_not_complete()).chain(odd_spellings()).chain(lazy.collect::<Vec<_>>()).into_iter().chain(reimport_changes_nothing()).chain(modules_that_handle_their_own_exceptions()).chain(crossings()).chain(fibers_from_other_modules()).chain(graphs);
     let hooks = Hooks {
         attribute: &|_c, _m, _o, _mm| None,
         nontrivial: &|c, m| c.modules.len() >= 2 && m.out.iter().filter(|l| l.starts_with("load ")).count() >= 2 || m.out.iter().any(|l| l.contains("failed")) || matches!(m.outcome, Outcome::Uncaught(_)),
